@@ -779,6 +779,71 @@ fn large_assets(o: &Opts, rep: &mut Report, only: Option<(char, usize)>) {
         }
         None
     }
+    // an asset that has been read to its end is still the same file: after the end-of-file answer a seek back
+    // delivers the file's bytes again (a tape is rewound and replayed)
+    fn reuse<A: LoadableAsset + SeekableAsset>(mut a: A, data: &[u8]) -> Option<String> {
+        let len = data.len();
+        for round in 0..3 {
+            let mut all = vec![0u8; len];
+            if a.seek(SeekFrom::Start(0)).is_err() {
+                return Some(format!("round {}: seek to the start failed", round));
+            }
+            if let Err(e) = a.read_exact(&mut all) {
+                return Some(format!("round {}: reading the whole file after a seek to the start failed: {:?}", round, e));
+            }
+            if all[..] != data[..] {
+                return Some(format!("round {}: the bytes read differ from the file", round));
+            }
+            // run into the end of the file (several ways), then go back
+            let mut one = [0u8; 1];
+            let _ = a.read_exact(&mut one);
+            let _ = a.read(&mut one);
+            let back = len - 1 - (round * 37) % len.min(200);
+            if a.seek(SeekFrom::Start(back)).is_err() {
+                return Some(format!("round {}: seek back to {} after the end of the file failed", round, back));
+            }
+            let mut tail = vec![0u8; len - back];
+            if let Err(e) = a.read_exact(&mut tail) {
+                return Some(format!("round {}: after reading past the end and seeking back to {}, read_exact of the last {} bytes failed: {:?}", round, back, len - back, e));
+            }
+            if tail[..] != data[back..] {
+                return Some(format!("round {}: after reading past the end and seeking back to {}, other bytes than the file's", round, back));
+            }
+        }
+        None
+    }
+    for size in [1usize, 100, 4096, 4097, 10_000] {
+        let data: Vec<u8> = (0..size).map(|i| ((i * 11 + (i >> 8) * 3) & 0xFF) as u8).collect();
+        for kind in ['b', 'g', 'f', 'v'] {
+            if only.is_some() {
+                continue;
+            }
+            let r: Result<Option<String>, String> = match kind {
+                'b' => Ok(reuse(BufferCursor::new(data.clone()), &data)),
+                'v' => Ok(reuse(crate::host::VAsset::new(data.clone()), &data)),
+                'g' => GzipAsset::new(&env::gzip_stored(&data, 60000)[..]).map(|a| reuse(a, &data)).map_err(|e| e.to_string()),
+                _ => env::temp_file(&data).map(|f| reuse(FileAsset::from(f), &data)),
+            };
+            rep.eval();
+            rep.class(format!("asset reuse after eof kind={} size={}", kind, size));
+            let bad = match r {
+                Ok(None) => None,
+                Ok(Some(w)) => Some(w),
+                Err(e) => Some(format!("the asset could not be opened: {}", e)),
+            };
+            if let Some(what) = bad {
+                rep.violation(Violation {
+                    kind: Kind::SpecViolated,
+                    key: format!("C16/asset/reuse-after-eof/kind={}", kind),
+                    what: format!("a file of {} bytes through asset implementation '{}' (b = BufferCursor, g = GzipAsset, f = FileAsset, v = in-memory): {}", size, kind, what),
+                    correspondence: "corr.C16.read_exact (asset implementations deliver the bytes of the file)".into(),
+                    case: J::obj(vec![("text", J::s(format!("assetreuse kind={} size={}", kind, size)))]),
+                    implementation: what.clone(),
+                    expected: "the file's bytes again, whatever implementation delivers them".into(),
+                });
+            }
+        }
+    }
     let sizes: Vec<usize> = if o.thorough() { vec![70_000, 262_144, 262_145, 300_000, 1_200_000] } else { vec![262_145, 300_000] };
     for size in sizes {
         let data: Vec<u8> = (0..size).map(|i| ((i * 7 + (i >> 8) * 13 + (i >> 16) * 101) & 0xFF) as u8).collect();
@@ -818,6 +883,11 @@ fn large_assets(o: &Opts, rep: &mut Report, only: Option<(char, usize)>) {
 
 fn replay(text: &str, rep: &mut Report, model: &mut Model) {
     let text = text.trim();
+    if text.starts_with("assetreuse ") {
+        let o = Opts { tier: "quick".into(), seed: 1, model: String::new(), out: String::new(), replay: None, corpus: None };
+        large_assets(&o, rep, None);
+        return;
+    }
     if let Some(rest) = text.strip_prefix("largeasset ") {
         let mut kind = 'g';
         let mut size = 300_000usize;
